@@ -20,7 +20,8 @@ META = dict(
               "key type) compared with the real HostKeys on generated files and add/load/save/delete histories",
     text="Generated known_hosts files (plain and hashed names, multi-host lines, repeated hosts with the same and "
          "with different keys, several key types per host, comments, blank and unparsable lines, tab/space "
-         "separators, trailing comments) are loaded with the real HostKeys. For a probe set of host names "
+         "separators, trailing comments; comment lines of 1, 2, 3+ words, indented with spaces/tabs, with trailing "
+         "whitespace, commented-out entries '#host type key', blank lines of spaces/tabs, CRLF line ends) are loaded with the real HostKeys. For a probe set of host names "
          "(listed, unlisted, near misses, hashed literals) lookup() and check() over a pool of keys are compared "
          "with the reference; the object is saved, reloaded into a fresh object (identical lookups, and the "
          "saved text re-parsed by the reference agrees), and the same file is loaded a second time (lookups, "
@@ -153,16 +154,17 @@ def gen_file(rng, pool, hosts=None):
     hashed_literals = []
     multi = 0
     conflicts = 0
+    info = dict(ghosts=[], indented_comment=0, commented_entry=0, comments=0, blanks=0, crlf=False)
     for _ in range(rng.randint(1, 12)):
         r = rng.random()
-        if r < 0.08:
-            lines.append(rng.choice(["", "   ", "# a comment", "#alpha ssh-rsa AAAA", "\t"]))
+        if r < 0.22:
+            lines.append(rand_noise_line(rng, pool, hosts, info))
             continue
-        if r < 0.12:
+        if r < 0.26:
             lines.append(rng.choice(["alpha ssh-rsa", "lonelyfield", "alpha"]))  # too few fields
             continue
         k = rng.choice(pool)
-        if r < 0.17:
+        if r < 0.31:
             # a key type this library does not know (still valid base64)
             lines.append("%s %s %s" % (rng.choice(hosts), rng.choice(["ssh-dss", "ssh-ed448", "sk-ssh-ed25519@openssh.com"]),
                                        base64.b64encode(s("ssh-dss") + rng.randbytes(40)).decode()))
@@ -193,8 +195,57 @@ def gen_file(rng, pool, hosts=None):
             if rivals:
                 lines.append("%s %s %s" % (rng.choice(names), k.kt, rng.choice(rivals).b64))
                 conflicts += 1
-    text = "\n".join(lines) + rng.choice(["\n", "\n", ""])
-    return text, hosts, hashed_literals, (multi, conflicts)
+    nl = "\n"
+    if rng.random() < 0.15:
+        nl = "\r\n"  # file written on Windows / copied through a CRLF tool
+        info["crlf"] = True
+    text = nl.join(lines) + rng.choice([nl, nl, ""])
+    info["multi"], info["conflicts"] = multi, conflicts
+    return text, hosts, hashed_literals, info
+
+
+def rand_noise_line(rng, pool, hosts, info):
+    """A line that is NOT an entry: blank (spaces/tabs) or a comment in one of the shapes found in real files,
+    optionally indented and with trailing whitespace. Commented-out entries record the names they would list if
+    a parser mistook them for entries (`ghosts`)."""
+    if rng.random() < 0.25:
+        info["blanks"] += 1
+        return rng.choice(["", " ", "   ", "\t", " \t ", "\t\t"])
+    indent = rng.choice(["", "", " ", "    ", "\t", " \t", "\t\t", "        "])
+    trail = rng.choice(["", "", " ", "\t", "   "])
+    k = rng.choice(pool)
+    h = rng.choice(hosts)
+    form = rng.randrange(10)
+    if form == 0:
+        body = "#"
+    elif form == 1:
+        body = "#" + rng.choice(["comment", "TODO", "x"])
+    elif form == 2:
+        body = "# " + rng.choice(["comment", "servers", "x"])
+    elif form == 3:
+        body = "# two words"
+    elif form == 4:
+        body = "# three word comment"
+    elif form == 5:
+        body = "# a much longer comment, with punctuation: and = signs; and 7 or more words"
+    elif form == 6:
+        body = "#three word comment"
+    else:
+        info["commented_entry"] += 1
+        if form == 7:
+            body = "#%s %s %s" % (h, k.kt, k.b64)  # commented-out entry, no space after '#'
+            info["ghosts"] += ["#" + h]
+        elif form == 8:
+            body = "# %s %s %s" % (h, k.kt, k.b64)  # ... with a space: first field would be '#'
+            info["ghosts"] += ["#"]
+        else:
+            h2 = rng.choice(hosts)
+            body = "#%s,%s %s %s old key" % (h, h2, k.kt, k.b64)
+            info["ghosts"] += ["#" + h]
+    info["comments"] += 1
+    if indent:
+        info["indented_comment"] += 1
+    return indent + body + trail
 
 
 # ---- observation helpers ------------------------------------------------------------------
@@ -277,6 +328,29 @@ def compare_with_reference(ctx, hk, entries, probes, pool, rng, where, wit):
     return ok
 
 
+def compare_host_list(ctx, hk, entries, ghosts, where, wit):
+    """HostKeys.keys() == the names listed by the reference's entries (a comment or blank line is never one)."""
+    want = {n for names, _, _ in entries for n in names}
+    try:
+        got = set(hk.keys())
+    except Exception as e:
+        ctx.violation("%s: exception from keys(): %s" % (where, exc_signature(e)), repr(e)[:200], wit)
+        return
+    ctx.count("host_lists_compared")
+    extra = got - want
+    # a plain name may legitimately be folded into an earlier entry that lists the same host in hashed form with
+    # the same key; it is only "missing" when nothing that keys() reports lists it any more
+    missing = {n for n in want - got if not any(name_lists(g, n) for g in got)}
+    if extra:
+        if any(x in ghosts or x.startswith("#") for x in extra):
+            sig = "a comment line was taken for an entry (its first word shows up in keys())"
+        else:
+            sig = "keys() lists a name that no entry of the file lists"
+        ctx.violation("%s: %s" % (where, sig), "unexpected names %r" % sorted(extra)[:4], wit)
+    if missing:
+        ctx.violation("%s: keys() omits a name an entry lists" % where, "missing %r" % sorted(missing)[:4], wit)
+
+
 def snapshot(hk, probes, path):
     looks, keylists = {}, {}
     for h in probes:
@@ -357,12 +431,19 @@ def save_reload(ctx, hk, probes, pool, rng, path, where, wit):
 
 # ---- scenarios --------------------------------------------------------------------------------
 def file_scenario(ctx, rng, pool, d, i):
-    text, hosts, hashed, (multi, conflicts) = gen_file(rng, pool)
+    text, hosts, hashed, info = gen_file(rng, pool)
+    multi, conflicts = info["multi"], info["conflicts"]
     entries = ref_parse(text)
     f1, f2, f3 = (os.path.join(d, n) for n in ("kh", "kh.saved", "kh.snap"))
     write(f1, text)
-    probes = list(dict.fromkeys(hosts + rng.sample(HOSTS, 3) + rng.sample(UNLISTED, 3) + hashed[:2]))
+    ghosts = list(dict.fromkeys(info["ghosts"]))
+    probes = list(dict.fromkeys(hosts + rng.sample(HOSTS, 3) + rng.sample(UNLISTED, 3) + hashed[:2] + ghosts[:3]))
     wit = dict(file=text)
+    for flag, name in (("indented_comment", "files_with_indented_comments"), ("commented_entry", "files_with_commented_out_entries"),
+                       ("crlf", "files_with_crlf_line_ends"), ("blanks", "files_with_blank_lines")):
+        if info[flag]:
+            ctx.count(name)
+    ctx.count("comment_lines_generated", info["comments"])
     ctx.case(("file", text), nontrivial=bool(entries),
              sample=dict(kind="file scenario", file=text, probes=probes) if i < 2 else None)
     if multi:
@@ -378,7 +459,15 @@ def file_scenario(ctx, rng, pool, d, i):
         return
     ctx.count("files_loaded")
     compare_with_reference(ctx, hk, entries, probes, pool, rng, "after load", wit)
-    save_reload(ctx, hk, probes, pool, rng, f2, "after load", wit)
+    compare_host_list(ctx, hk, entries, ghosts, "after load", wit)
+    fresh = save_reload(ctx, hk, probes, pool, rng, f2, "after load", wit)
+    if fresh is not None:
+        # load -> save -> load: same host list as the first load (and, via save_reload, the same lookups)
+        ctx.count("host_lists_compared_after_save_reload")
+        a, b = set(hk.keys()), set(fresh.keys())
+        if a != b:
+            ctx.violation("host list differs after save and reload",
+                          "only before: %r, only after: %r" % (sorted(a - b)[:4], sorted(b - a)[:4]), wit)
     reload_twice(ctx, hk, f1, probes, f3, "file loaded twice", wit)
 
 
@@ -394,7 +483,7 @@ def history_scenario(ctx, rng, pool, d, i):
         wit = dict(history=ops)
         try:
             if r < 0.35 or not ops:
-                text, _, hashed, _ = gen_file(rng, pool, hosts)
+                text, _, hashed, _info = gen_file(rng, pool, hosts)
                 path = os.path.join(d, "hist%d" % len(files))
                 write(path, text)
                 files.append(path)
@@ -465,9 +554,9 @@ def run(ctx):
         ABBR[k.b64] = "<K%d:%s>" % (i, k.kt)
     d = tempfile.mkdtemp(prefix="vf-c41-")
     try:
-        for i in range(ctx.pick(150, 1200)):
+        for i in range(ctx.pick(150, 900)):
             file_scenario(ctx, rng, pool, d, i)
-        for i in range(ctx.pick(60, 500)):
+        for i in range(ctx.pick(60, 400)):
             history_scenario(ctx, rng, pool, d, i)
     finally:
         shutil.rmtree(d, ignore_errors=True)
@@ -480,3 +569,9 @@ def run(ctx):
     ctx.require("files_with_hashed_names", 150)
     ctx.require("files_with_conflicting_keys", 100)
     ctx.require("histories_run", 120)
+    ctx.require("host_lists_compared", 300)
+    ctx.require("host_lists_compared_after_save_reload", 300)
+    ctx.require("comment_lines_generated", 400)
+    ctx.require("files_with_indented_comments", 100)
+    ctx.require("files_with_commented_out_entries", 80)
+    ctx.require("files_with_crlf_line_ends", 40)
